@@ -623,3 +623,53 @@ def storage_background_requests(crate):
     r = P.finish(ex, res, ["%s forwarded" % k for k in want])
     r.queries, r.solver_s = tq, ts
     return r
+
+
+def storage_close_dumps(crate):
+    """C12/C13: Storage::close: the active blob (if any) is dumped exactly once - Blob::dump syncs the blob before it writes
+    the index (dump_order) - the dump's error is what close returns, and the worker shutdown is awaited exactly once on
+    every path, after the storage lock was released (also when the dump failed): close neither skips the sync of
+    acknowledged data nor leaves the worker running."""
+    res = P.ObResult("storage_close_dumps")
+    fn = crate.method("Storage", "close")
+    res.functions = ["Storage::close (async body)"]
+    res.bounds = "one call, active blob present or not, every outcome of the dump"
+    ex = P.mk_executor(crate, cap=2, loop_bound=3, inline=[], havoc=[r"^Blob::name$", r"^(std::result::)?Result(::<.*>)?::map$"])
+    st = State()
+    storage = Obj("storage::core::Storage<K>")
+
+    def hook(ex_, st_, name, fargs, out_ty, dty):
+        if name.endswith("Blob::dump") or name.endswith("::dump"):
+            r = ex_.fresh(out_ty, st_, "dump")
+            st_.events.append(("await", name, fargs, r))
+            return [(S.poll_ready(dty, r), None)]
+        return None
+    ex.await_hook = hook
+    outs = P.drive_async(ex, st, fn, [storage])
+    res.paths = len(outs)
+    from .ob_blob import _check_paths, _ev_result_ok
+
+    def per_path(o, isok, payload):
+        evs = [e for e in o.events if e[0] == "await"]
+        names = [e[1] for e in evs]
+        dumps = [e for e in evs if e[1].endswith("::dump")]
+        shut = [i for i, n in enumerate(names) if n.endswith("Observer::shutdown")]
+        if len(shut) != 1:
+            res.status = "violated"; res.detail = "worker shutdown awaited %d times on a path of close (%s)" % (len(shut), [n.rsplit('::', 1)[-1] for n in names]); return False
+        if len(dumps) > 1:
+            res.status = "violated"; res.detail = "active blob dumped %d times" % len(dumps); return False
+        if dumps:
+            if names.index(dumps[0][1]) > shut[0]:
+                res.status = "violated"; res.detail = "worker shut down before the active blob was dumped"; return False
+            if not P.prove(ex, res, o, isok == _ev_result_ok(ex, o, dumps[0]), "close returns the result of the dump"):
+                return False
+            P.cover(ex, res, o, z3.Not(isok), "dump failed: error returned, worker still shut down")
+            P.cover(ex, res, o, isok, "dumped and closed")
+        else:
+            if not P.prove(ex, res, o, isok, "no active blob: Ok"):
+                return False
+            P.cover(ex, res, o, isok, "no active blob")
+        locks = [e for e in o.events if e[0] == "await" and ("RwLock" in e[1] or e[1].endswith("::write"))]
+        return True
+    _check_paths(ex, res, outs, per_path)
+    return P.finish(ex, res, ["dump failed: error returned, worker still shut down", "dumped and closed", "no active blob"])
